@@ -24,22 +24,26 @@ def _all_loops(events: List[Event], acc: Optional[List[LoopSummary]] = None) -> 
 
 
 class InitAnalysis:
-    def __init__(self, prog: Program):
-        self.fn = prog.func(f"{prog.package}.{PB_MOD}", "Problem.init")
-        self.it = Interp(prog)
-        res = [r for r in self.it.run(self.fn) if r.outcome == "return"]
-        if len(res) != 1:
-            raise AnalysisError(f"Problem.init: expected a single straight-line path, found {len(res)}")
-        self.path = res[0]
-        self.loops = _all_loops(self.path.state.trace)
+    """One abstract path of Problem.init (the pinned code has exactly one; a rewrite with a branch has several: each is held to the rules)."""
+
+    def __init__(self, fn: FuncInfo, it: Interp, path: PathResult):
+        self.fn = fn
+        self.it = it
+        self.path = path
+        self.loops = _all_loops(path.state.trace)
 
 
-def init_analysis(prog: Program) -> InitAnalysis:
-    a = getattr(prog, "_init_an", None)
-    if a is None:
-        a = InitAnalysis(prog)
-        prog._init_an = a  # type: ignore[attr-defined]
-    return a
+def init_analyses(prog: Program) -> List[InitAnalysis]:
+    c = getattr(prog, "_init_ans", None)
+    if c is None:
+        fn = prog.func(f"{prog.package}.{PB_MOD}", "Problem.init")
+        it = Interp(prog)
+        res = [r for r in it.run(fn) if r.outcome == "return"]
+        if not res or len(res) > 16:
+            raise AnalysisError(f"Problem.init: {len(res)} abstract paths")
+        c = [InitAnalysis(fn, it, r) for r in res]
+        prog._init_ans = c  # type: ignore[attr-defined]
+    return c
 
 
 def _stores(l: LoopSummary, root_suffix: str) -> List[Tuple[PathResult, Event]]:
@@ -53,7 +57,13 @@ def _stores(l: LoopSummary, root_suffix: str) -> List[Tuple[PathResult, Event]]:
 
 def rule_trigger_join(ctx: Ctx, prog: Program) -> None:
     ctx.rule("R-TRIGGER-JOIN")
-    a = init_analysis(prog)
+    n_total = 0
+    for a in init_analyses(prog):
+        n_total += _trigger_join_one(ctx, prog, a)
+    ctx.floor("R-TRIGGER-JOIN:stores", n_total, 1)
+
+
+def _trigger_join_one(ctx: Ctx, prog: Program, a: InitAnalysis) -> int:
     fn = a.fn
     ctx.fn(fn.fq)
     n = 0
@@ -106,7 +116,7 @@ def rule_trigger_join(ctx: Ctx, prog: Program) -> None:
             else:
                 ctx.violation("R-TRIGGER-JOIN", fn.path, "Problem.init", "triggers-index", f"{fn.path}:{e.line}",
                               f"the wake-up table is indexed by {show_val(dom)}, not by the shared-domain index of the variable (dom_indices[var])")
-    ctx.floor("R-TRIGGER-JOIN:stores", n, 1)
+    return n
 
 
 def _event_in_own_body(l: LoopSummary, bp: PathResult, e: Event) -> bool:
@@ -124,7 +134,11 @@ def _event_in_own_body(l: LoopSummary, bp: PathResult, e: Event) -> bool:
 
 def rule_init_coherence(ctx: Ctx, prog: Program) -> None:
     ctx.rule("R-INIT-COHERENCE")
-    a = init_analysis(prog)
+    for a in init_analyses(prog):
+        _init_coherence_one(ctx, prog, a)
+
+
+def _init_coherence_one(ctx: Ctx, prog: Program, a: InitAnalysis) -> None:
     fn, it, path = a.fn, a.it, a.path
     ctx.fn(fn.fq)
     evs = path.state.trace
@@ -154,7 +168,7 @@ def rule_init_coherence(ctx: Ctx, prog: Program) -> None:
                 ctx.ok("R-INIT-COHERENCE", "sort key is a function of the constraint tuple only")
     # (b) per-constraint caches
     prop_loops = [l for l in a.loops if _iterates(l, "self.propagators")]
-    ctx.floor("R-INIT-COHERENCE:loops-over-propagators", len(prop_loops), 3)
+    ctx.floor("R-INIT-COHERENCE:loops-over-propagators", len(prop_loops), 1)
     seen = {"algorithms": 0, "var_bounds": 0, "param_bounds": 0, "props_dom_indices": 0, "props_dom_offsets": 0, "props_parameters": 0}
     for l in prop_loops:
         idx = l.index
@@ -215,7 +229,8 @@ def rule_init_coherence(ctx: Ctx, prog: Program) -> None:
                              "the wake-up events of constraint p must come from its own trigger function, arity and parameters")
     for k, v in seen.items():
         if v == 0:
-            ctx.violation("R-INIT-COHERENCE", fn.path, "Problem.init", f"missing:{k}", fn.loc(), f"Problem.init never fills {k} per constraint")
+            # no per-constraint store recognised (e.g. the table is built in one vectorised step): nothing is decided about its content
+            ctx.undecided_site("R-INIT-COHERENCE", f"per-constraint fill of {k}", "no per-constraint store of this table found (built in one go?): its content is not decided")
     # (c) derived attributes are assigned from fresh allocations, never accumulated
     derived = ["dom_indices_arr", "dom_offsets_arr", "algorithms", "var_bounds", "param_bounds", "props_dom_indices", "props_dom_offsets", "props_parameters", "triggers"]
     for d in derived:
@@ -226,7 +241,11 @@ def rule_init_coherence(ctx: Ctx, prog: Program) -> None:
         first = assigns[0]
         v = as_view(first.value)
         org = it.allocs.get(v.root) if isinstance(v, View) else None
-        if org and org[0] == "alloc":
+        advanced = isinstance(v, View) and any(isinstance(c, tuple) and c and c[0] == "fancy" for c in v.idx)  # a[list] is a copy, not a view
+        if not advanced and org and org[0] in ("mcall", "call") and "reshape" in str(org):
+            rv = as_view(org[1]) if org[0] == "mcall" else None
+            advanced = isinstance(rv, View) and any(isinstance(c, tuple) and c and c[0] == "fancy" for c in rv.idx)
+        if (org and org[0] == "alloc") or advanced:
             ctx.ok("R-INIT-COHERENCE", f"self.{d} is re-created by init()", nontrivial=False)
         else:
             ctx.violation("R-INIT-COHERENCE", fn.path, "Problem.init", f"not-fresh:{d}", f"{fn.path}:{first.line}",
